@@ -588,6 +588,35 @@ def _():
     return S(TM.AlphaCdr3Levenshtein().calc_cdist_matrix, ["CAVF"], TCR())
 
 
+def TCR_BADV(symbol="TRAV1-1"):
+    t = TCR()
+    t.loc["t1", "TRAV"] = symbol        # a gene-level symbol: tidytcells has no sequence data for it, the CDR metrics raise
+    return t
+
+
+@spec("tcr_metric_cdr_unknown_v_raises", "metric", raises=True)
+def _():
+    return S(lambda a: TM.CdrLevenshtein().calc_pdist_vector(a), TCR_BADV())
+
+
+@spec("tcr_metric_alpha_cdr_unknown_v_raises", "metric", raises=True)
+def _():
+    return S(lambda a, b: TM.AlphaCdrLevenshtein(cdr1_weight=2).calc_cdist_matrix(a, b), TCR_BADV("junk"), TCR())
+
+
+@spec("tcr_metric_cdr_unknown_v_twice", "metric")
+def _():
+    def f(a, b):
+        out = []
+        for t in (a, b, a, a):          # the failing table again after it failed, with a good one in between
+            try:
+                out.append(TM.CdrLevenshtein(cdr2_weight=2).calc_pdist_vector(t))
+            except Exception as e:  # noqa: BLE001
+                out.append("raises " + type(e).__name__)
+        return out
+    return S(f, TCR_BADV(), TCR())
+
+
 # --- long-lived objects ---------------------------------------------------------
 # Created once when the catalogue is imported (i.e. first thing in a fresh interpreter) and used again and again between
 # other calls, as user code does with metric and database objects.
@@ -823,6 +852,19 @@ def _():
 def _():
     return S(closing(lambda d, **kw: fig_clustermap(PL.similarity_clustermap(d, **kw))), CLDF(), alpha_column=None, meta_columns=["epitope"],
              bounds=np.arange(0, 5, 1))
+
+
+@spec("clustermap_short_mapper_list", "plotting", seed=45)
+def _():
+    # fewer colour mappers than 1 + len(meta_columns), in the caller's own (mutable) list
+    return S(closing(lambda d, **kw: fig_clustermap(PL.similarity_clustermap(d, **kw))), CLDF(), meta_columns=["epitope", "cdr3a"],
+             meta_to_colors=[PL.labels_to_colors_hls])
+
+
+@spec("clustermap_mapper_list", "plotting", seed=46)
+def _():
+    return S(closing(lambda d, **kw: fig_clustermap(PL.similarity_clustermap(d, **kw))), CLDF(), meta_columns={"epitope": "Epitope"},
+             meta_to_colors=[PL.labels_to_colors_tableau, PL.labels_to_colors_hls])
 
 
 NAMES = sorted(CATALOGUE)
